@@ -2330,22 +2330,24 @@ static int32_t tls13ParseNewSessionTicket(ssl_t *ssl, psParseBuf_t *pb)
         if (ssl->sid->sessionTicket)
         {
             psFree(ssl->sid->sessionTicket, ssl->sid->pool);
+            ssl->sid->sessionTicket = NULL;
+            ssl->sid->sessionTicketLen = 0;
         }
 # endif
         if (ssl->sid->psk)
         {
             tls13FreePsk(ssl->sid->psk, ssl->sid->pool);
+            ssl->sid->psk = NULL;
         }
     }
     else
     {
-        ssl->sid = psMalloc(ssl->hsPool, sizeof(sslSessionId_t));
-        if (ssl->sid == NULL)
-        {
-            goto out_internal_error;
-        }
-        Memset(ssl->sid, 0, sizeof(sslSessionId_t));
-        ssl->sid->pool = ssl->hsPool;
+        /* The application gave no session ID structure to the session:
+           a copy of the ticket made here could neither be read nor
+           released by anyone (matrixSslDeleteSession does not own a
+           client-side sid). The PSK itself stays in the session's list. */
+        rc = PS_SUCCESS;
+        goto do_free;
     }
 # ifdef USE_STATELESS_SESSION_TICKETS
     ssl->sid->sessionTicket = psMalloc(ssl->sid->pool, ticketLen);
